@@ -111,17 +111,24 @@ pub fn oracle(p: &Program) -> Vec<Violation> {
     }
     let mut model = model_new(p);
     let mut applied = 0usize;
+    let mut undefined = false;
     let r = drive(p, &flat, &mut |o: &Obs| {
         let mut after = "ctor";
         let mut want_refused = false;
         while applied < o.step {
             if let Op::Sdt(so) = &flat[applied] {
+                // Pushing *no* bytes through the sink: the property does not say whether that counts as
+                // an append (which rewrites Length). It only matters while the Length field holds
+                // something a caller wrote there; from such a push on the history is not judged.
+                if matches!(so, SdtOp::SinkVec(v) if v.is_empty()) && le32(&model, 4) as usize != model.len() {
+                    undefined = true;
+                }
                 want_refused = !model_apply(&mut model, so);
                 after = op_name(so);
             }
             applied += 1;
         }
-        if !out.is_empty() {
+        if !out.is_empty() || undefined {
             return;
         }
         if o.step > 0 && want_refused != o.refused {
